@@ -40,6 +40,7 @@ ASSUMPTIONS = ["pandapower's run_time_step catches ts_variables['errors'] and ca
                "continue_on_divergence", "pandapower's _evaluate_net re-raises the member net's error unless the member's "
                "continue_on_divergence is set"]
 TECHNIQUE = "call-graph raise-set computation, registration-table agreement, loop-shape check"
+EXPLANATION += (' ' + '(R13.7, shared with C07 R7.3) the stage functions create the internal data unless reuse is requested and drop it afterwards, and init_options may only switch reuse_internal_data off (when the matrix-update option is off): a time-series step starts from the same solver state as a stand-alone call.')
 
 
 def nonconvergence_classes(ix):
